@@ -1,5 +1,7 @@
 package layerb
 
+import "strings"
+
 // FamilySignature: accept / reject programs for C14 at the level of whole runs (which options the configuration
 // layer hands to method.Parse for each kind of function is not visible to kernel K4): custom functions that the
 // output package cannot reach, declarations with a wrong shape.
@@ -35,6 +37,33 @@ func FamilySignature(thorough bool) []*Conv {
 		add("extend_no_result", f, "source PFXIn", "PFXOut", "func PFXNoRes(i int) {}\n", []string{"extend PFXNoRes"}, nil, "extend function without result")
 		add("generic_converter_interface", f, "source PFXIn", "PFXOut", "// goverter:converter\ntype PFXGeneric[T any] interface {\n\tConvert(source T) PFXOut\n}\n", nil, nil, "converter interface with type parameters")
 		add("extend_generic", f, "source PFXIn", "PFXOut", "func PFXGen[T any](i T) T { return i }\n", []string{"extend PFXGen"}, nil, "generic extend function")
+	}
+	// goverter:context NAME belongs to the method it is written on: a sibling (parsed later: its name sorts after)
+	// with a parameter of that name has two sources and is rejected
+	for _, f := range []string{"struct", "function", "variable"} {
+		sib := "\tZPFXSibling(source PFXOut, db PFXIn) PFXIn\n"
+		if f == "variable" {
+			sib = "\tZPFXSibling func(source PFXOut, db PFXIn) PFXIn\n"
+		}
+		out = append(out, &Conv{ID: "signature/context_line_not_shared_with_sibling/" + f, Family: "signature", Format: f, Params: "source PFXIn, db PFXIn", Results: "PFXOut",
+			Decls: io, MethodLines: []string{"context db"}, ExtraMethods: sib, Spec: &Spec{}, ExpectFail: true, FailNote: "a sibling method's goverter:context line made a second source parameter a context", Solo: true})
+		ok := "\t// goverter:context db\n\tZPFXSibling(source PFXOut, db PFXIn) PFXIn\n"
+		if f == "variable" {
+			ok = strings.Replace(ok, "ZPFXSibling(", "ZPFXSibling func(", 1)
+		}
+		out = append(out, &Conv{ID: "signature/context_line_on_both_siblings/" + f, Family: "signature", Format: f, Params: "source PFXIn, db PFXIn", Results: "PFXOut",
+			Decls: io, MethodLines: []string{"context db"}, ExtraMethods: ok, Spec: &Spec{}, Solo: true})
+	}
+	// goverter:context names a parameter: a name without a parameter is reported, on a method and on a custom function
+	for _, f := range []string{"struct", "function", "variable"} {
+		add("context_names_missing_parameter", f, "source PFXIn", "PFXOut", "", nil, []string{"context nosuch"}, "goverter:context names a parameter that does not exist")
+		add("context_names_missing_parameter_on_function", f, "source PFXIn", "PFXOut", "// goverter:context lokup\nfunc PFXAge(i int) int { return i }\n", []string{"extend PFXAge"}, nil, "goverter:context in the doc comment of a custom function names a parameter that does not exist")
+	}
+	// settings that need a value and are written without one are reported, not accepted without effect
+	for _, f := range []string{"struct", "function", "variable"} {
+		add("bare_ignore", f, "source PFXIn", "PFXOut", "", nil, []string{"ignore"}, "goverter:ignore without a field name")
+		add("bare_extend", f, "source PFXIn", "PFXOut", "", []string{"extend"}, nil, "goverter:extend without a function name")
+		add("bare_map", f, "source PFXIn", "PFXOut", "", nil, []string{"map"}, "goverter:map without fields")
 	}
 	// custom functions that take the converter interface: a role of its own where a converter value exists (struct
 	// format), an ordinary second source - hence rejected - in function format, whichever setting names the function
